@@ -158,10 +158,9 @@ def run_generated(case, results_dir, idx):
     from src.optimizer.extract_results import Extractor
     from src.optimizer.interpret_results import Interpreter
     res = {}
-    title = f"gen_{idx}"
+    # the first cases come in pairs saved under ONE title (different NMONTHS / values): the second must replace the first
+    title = f"gen_{idx - 1}" if (idx % 2 == 1 and idx < 24) else f"gen_{idx}"
     path = csv_path(results_dir, title)
-    if os.path.exists(path):
-        os.remove(path)
     try:
         with quiet():
             consts, variables, tc = build_stubs(case)
